@@ -979,6 +979,37 @@ def reported(check, prog):
                       '%s, computed once and remembered as .%s' % (show(want), cache),
                       prog.loc(q, fd), fail_detail='returns %s; stores %s' % (
                           show(v)[:200], [(e['attr'], show(e['value'])[:80]) for e in st]))
+    # ... each remembered quantity under a name of its own: the cache is keyed by
+    # the attribute name only, so two quantities sharing one name return whichever
+    # was asked for first
+    import ast as _ast
+    users = {}
+    for cq in sorted(set(prog.subclasses(R)) | {R}):
+        c = prog.classes.get(cq)
+        if c is None:
+            continue
+        members = list(c.methods.items()) + [
+            (n, pr['getter']) for n, pr in c.properties.items() if pr.get('getter')]
+        for name, fdm in members:
+            for n in _ast.walk(fdm):
+                if isinstance(n, _ast.Call) and isinstance(n.func, _ast.Attribute) and \
+                        n.func.attr == '_calculate_first_time' and n.args and \
+                        isinstance(n.args[0], _ast.Constant):
+                    users.setdefault(n.args[0].value, set()).add(
+                        '%s.%s' % (cq.rpartition('.')[2], name))
+    check.need('quantities remembered on a result', len(users), 2,
+               'L8-best-fit-is-forward-model', 'FitResult remembered quantities',
+               'hologram, guess hologram and max_lnprob are computed once',
+               prog.loc(R + '.hologram', prog.func(R + '.hologram')))
+    for cache_name, who in sorted(users.items()):
+        check.require(len(who) == 1, 'L8-best-fit-is-forward-model',
+                      'FitResult cache %s' % cache_name,
+                      'remembered under .%s by %s only' % (cache_name, sorted(who)[0]),
+                      prog.loc(R + '.hologram', prog.func(R + '.hologram')),
+                      fail_detail='%s all remember their value as .%s: whichever is '
+                      'read first is what the others return (result.guess_hologram '
+                      'before result.hologram gives the guess as the best fit, and it '
+                      'is what hp.save writes)' % (' and '.join(sorted(who)), cache_name))
     q = R + '.forward'
     fd = prog.func(q)
     it = Interp(prog, max_depth=1, opaque=[MD + 'detector_grid', MD + 'copy_metadata',
